@@ -107,7 +107,14 @@ fn oracle(s: &ProgScene<X>, t: &Trace) -> Vec<Violation> {
                         });
                     }
                 } else if let Some(next) = handled.get(k + 1) {
-                    if next.time != abandoned_at {
+                    // only a message that was already waiting is taken up at that very instant
+                    let next_id = if let Cb::Msg(m) = next.cb { m } else { 0 };
+                    let submitted_at = an
+                        .ops
+                        .iter()
+                        .find(|o| matches!(s.clients.get(o.c as usize).and_then(|c| c.ops.get(o.i as usize)), Some(Op::Call(_, m) | Op::Send(_, m)) if *m == next_id))
+                        .map(|o| t.log[o.begin].time);
+                    if next.time != abandoned_at && submitted_at.is_some_and(|st| st <= abandoned_at) {
                         out.push(Violation {
                             clause: "abandoned-at-t",
                             key: format!("C11/next-start-time/{cfg}"),
@@ -212,7 +219,18 @@ fn make_case(timeout: Option<u32>, fail: bool, durs: &[u32], mailbox: Mailbox, l
     }
     // layout 0: one client sends all but the last and calls the last; layout 1: one caller per message
     let mut clients = vec![];
-    if layout == 0 {
+    if layout >= 2 {
+        // one client, sequential calls separated by an idle gap (the actor sits idle for
+        // `layout` ticks between two messages)
+        let mut ops = vec![];
+        for (k, (id, _)) in durations.iter().enumerate() {
+            if k > 0 {
+                ops.push(Op::Sleep(layout as u32));
+            }
+            ops.push(Op::Call(H::Addr(0), *id));
+        }
+        clients.push(ClientSpec { init: vec![HInit::Addr], ops });
+    } else if layout == 0 {
         let mut ops: Vec<Op> = durations[..durations.len() - 1].iter().map(|(id, _)| Op::Send(H::Addr(0), *id)).collect();
         ops.push(Op::Call(H::Addr(0), durations[durations.len() - 1].0));
         clients.push(ClientSpec { init: vec![HInit::Addr], ops });
@@ -222,7 +240,7 @@ fn make_case(timeout: Option<u32>, fail: bool, durs: &[u32], mailbox: Mailbox, l
         }
     }
     // the owner waits for the end: join (fail config) or after a long sleep stop + join
-    let total: u32 = durs.iter().sum::<u32>() + 3;
+    let total: u32 = durs.iter().sum::<u32>() + 3 + if layout >= 2 { layout as u32 * durs.len() as u32 } else { 0 };
     clients.push(ClientSpec { init: vec![HInit::Own], ops: vec![Op::Sleep(total), Op::Consume(H::Own(0))] });
     if fail {
         clients.push(ClientSpec { init: vec![HInit::Addr], ops: vec![Op::Sleep(total), Op::Halt(H::Addr(0))] });
@@ -261,6 +279,28 @@ fn cases(tier: Tier) -> Vec<Case> {
                             if tier == Tier::Thorough || (layout == 0 && mb == Mailbox::U) {
                                 for &c in &ds {
                                     v.push(make_case(Some(t), fail, &[a, b, c], mb, layout));
+                                }
+                            }
+                        }
+                    }
+                }
+            }
+        }
+    }
+    // idle gaps between messages: the budget of a handler starts when it starts, not earlier
+    for &t in ts {
+        let mut ds = vec![0, t - 1, t, t + 1];
+        ds.sort();
+        ds.dedup();
+        for fail in [false, true] {
+            for &mb in &mbs {
+                for gap in [t, 2 * t + 1] {
+                    for &a in &ds {
+                        for &b in &ds {
+                            v.push(make_case(Some(t), fail, &[a, b], mb, gap.max(2) as u8));
+                            if tier == Tier::Thorough {
+                                for &c in &ds {
+                                    v.push(make_case(Some(t), fail, &[a, b, c], mb, gap.max(2) as u8));
                                 }
                             }
                         }
